@@ -1,9 +1,9 @@
 """C09 - call/N, once/1, findall/3, = and \\= agree with their standard definitions."""
 from lib import semcheck, progs
-from lib.semcheck import impl, model_expr, compare, oracle, describe, shrink, IMPORTS
+from lib.semcheck import model_expr, compare, describe, shrink, IMPORTS
 
 ID = 'C09'
-THEOREMS = ['C09_compiled_program_computes_reference', 'C09_builtin_extensional', 'C09_call_spec_compound', 'C09_call_spec_atom', 'C09_once_spec', 'C09_findall_spec', 'C09_findall_one_instance_per_answer', 'C09_findall_instances', 'C09_findall_at_most_once', 'C09_findall_bag_after_enumeration', 'C09_eq_spec', 'C09_neq_spec']
+THEOREMS = ['C09_compiled_program_computes_reference', 'C09_builtin_extensional', 'C09_call_spec_compound', 'C09_call_spec_atom', 'C09_once_spec', 'C09_findall_spec', 'C09_findall_one_instance_per_answer', 'C09_findall_instances', 'C09_findall_at_most_once', 'C09_findall_bag_after_enumeration', 'C09_findall_is_collect_then_match', 'C09_eq_spec', 'C09_neq_spec']
 CASE_TIMEOUT = 60
 MODEL_NEEDS_IMPL = True
 COQ_CHUNK = 20
@@ -11,7 +11,8 @@ RULE = ('random programs whose bodies use call/1..N (extra arguments), once/1, f
         'through one or two bound variables, atoms or compound goals, with 0/1/many solutions, as first/middle/last goal, under \\+ and inside '
         'if-then-else, with templates that share variables with the goal and repeated variables in \\= ; compared as C01 (the builtins are part '
         'of both Coq semantics). Non-trivial: a builtin is called with a goal that arrives through a variable or has extra arguments or has no '
-        'solution, and some query has an answer.')
+        'solution, and some query has an answer. Intrinsic oracle: the program with every builtin call replaced by its standard '
+        'definition (findall(T,G,B) => findall(T,G,L), L = B; X \\= Y => \\+ X = Y; inline once(G) => (G -> true); inline call(G,A..) => the goal) gives the same answers.')
 TRUSTED_BASE = []
 
 def gen(rng, tier):
@@ -59,3 +60,75 @@ def nontrivial(case, io):
 
 def distribution(cases, obs):
     return semcheck.stats(cases, obs)
+
+# ---- intrinsic oracle (implementation alone, no model): every builtin call is replaced by its standard definition
+#   findall(T,G,B)      =>  findall(T,G,L'), L' = B        (L' a new variable: the bag is matched AFTER the enumeration)
+#   X \= Y              =>  \+ X = Y
+#   once(G)             =>  ( G -> true ), true             (G written inline)
+#   call(G,A1..An)      =>  name(args ++ A1..An)            (G written inline)
+# and the rewritten program must give the same answers to the same queries on the implementation.
+def _twin_body(b, n):
+    k = b[0]
+    if k in ('and', 'or', 'if'):
+        return [k, _twin_body(b[1], n), _twin_body(b[2], n)]
+    if k == 'not':
+        return ['not', _twin_body(b[1], n)]
+    if k != 'call':
+        return b
+    f, args = b[1], b[2]
+    if f == 'findall' and len(args) == 3:
+        n[0] += 1
+        lv = ['var', 'Twin%d' % n[0]]
+        return ['and', ['call', 'findall', [args[0], args[1], lv]], ['call', '=', [lv, args[2]]]]
+    if f == '\\=' and len(args) == 2:
+        n[0] += 1
+        return ['not', ['call', '=', args]]
+    if f == 'once' and len(args) == 1 and args[0][0] in ('fun', 'atom'):
+        n[0] += 1
+        g = args[0]
+        # `, true`: an if-then directly to the left of a `;` would be read as if-then-else
+        return ['and', ['if', ['call', g[1], g[2] if g[0] == 'fun' else []], ['true']], ['true']]
+    if f == 'call' and args and args[0][0] in ('fun', 'atom'):
+        g = args[0]
+        name = g[1]
+        if name in ('true', 'fail', '!', ',', ';', '->', '\\+'):
+            return b
+        n[0] += 1
+        return ['call', name, (g[2] if g[0] == 'fun' else []) + args[1:]]
+    return b
+
+def twin(case):
+    n = [0]
+    cl = [[name, args, _twin_body(body, n)] for name, args, body in case['clauses']]
+    if not n[0]:
+        return None
+    return {'clauses': cl, 'queries': case['queries']}
+
+def impl(case):
+    io = semcheck.impl(case)
+    if isinstance(io, dict) and 'queries' in io and not case.get('source'):
+        tw = twin(case)
+        if tw is not None:
+            t = semcheck.impl(tw)
+            io['twin'] = t.get('queries') if isinstance(t, dict) and 'queries' in t else {'rejected': t}
+    return io
+
+def oracle(case, io):
+    r = semcheck.oracle(case, io)
+    if r or not isinstance(io, dict) or 'twin' not in io:
+        return r
+    tw = io['twin']
+    if isinstance(tw, dict):
+        return 'the program with the builtins replaced by their standard definitions is rejected: %r' % (tw,)
+    from lib import ast_io
+    for q, a, b in zip(case['queries'], io['queries'], tw):
+        if a['end'] != 'done' or b['end'] != 'done':
+            continue
+        x, y = a['answers'], b['answers']
+        if a.get('findall_inner') or b.get('findall_inner'):
+            x, y = semcheck.anon_vars(x), semcheck.anon_vars(y)
+        if x != y or a['count'] != b['count']:
+            qtxt = ast_io.term_text(['fun', q[0], q[1]]) if q[1] else q[0]
+            return ('query %s: %d answers, but %d answers when every findall(T,G,B) is written findall(T,G,L), L = B, every X \\= Y as \\+ X = Y, '
+                    'every inline once(G) as (G -> true) and every inline call(G,A..) as the goal itself' % (qtxt, a['count'], b['count']))
+    return None
